@@ -394,9 +394,11 @@ Theorem no_residue_thm :
   forall ops, runm op out step (init_public selftest cpu a s) ops = runm op out step (init_public selftest cpu a fresh) ops.
 Proof.
   intros op out selftest cpu a s fresh v Ha Hfl Hr1 Hr2 Hcpu Hv step Hself Hstep ops.
-  destruct (reinit_is_constant_thm cpu a s fresh Ha Hfl Hr1 Hr2 Hcpu) as (v' & Hv' & Hs & _).
+  destruct (reinit_is_constant_thm cpu a s fresh Ha Hfl Hr1 Hr2 Hcpu) as (v' & Hv' & Hs & _ & _ & _ & He1).
   rewrite Hv in Hv'. inversion Hv'; subst v'.
-  apply (sched_eq_run v op out step Hstep). unfold init_public. apply Hself. exact Hs.
+  assert (He2 : errno (m_ring (arch_init_run cpu a true fresh)) = 0%Z) by (destruct Hs as (_ & _ & E & _); congruence).
+  apply (sched_eq_run v op out step Hstep). unfold init_public. rewrite He1, He2. cbn [Z.eqb negb andb].
+  rewrite andb_false_r. apply Hself. exact Hs.
 Qed.
 
 (* after re-initialisation the ring is an empty ring at slot 0: every C05 theorem
